@@ -198,7 +198,7 @@ def run(P, R):
     R.check(r4, ok, 'pid 0 drops the history of that process on that instance', 'drop|holder', hp.loc(),
             'ProcStatisticsHolder.push_statistics pops under %s' % [sorted(tuple(f) for f in fm.at(c)) for c in pops])
     mk = [a for a in own_nodes(hp.node) if isinstance(a, ast.Assign) and ast.unparse(a.targets[0]) == 'self.instance_map[identifier]']
-    ok = len(mk) == 1 and any(not f[1] and f[0] == 'identifier_instance and pid == ref_pid' for f in fm.at(mk[0]))
+    ok = len(mk) == 1 and any(f[1] and f[0] == 'not identifier_instance or not pid == ref_pid' for f in fm.at(mk[0]))
     R.check(r4, ok, 'a new PID starts a fresh history', 'drop|pid-change', hp.loc(),
             'ProcStatisticsHolder.push_statistics does not restart the history under `not identifier_instance or pid != '
             'ref_pid`')
